@@ -58,6 +58,7 @@ type Verifier struct {
 	escaped          map[*Object]bool
 	contains         map[*Object][]Value
 	opaqueNames      map[string]bool
+	snapObjs         map[string]*Object
 	allowPanic       bool
 	opaqueGlobals    map[*ssa.Global]*Object
 	initLike         bool
@@ -177,6 +178,22 @@ func (v *Verifier) lookupContract(fn *ssa.Function) *Contract {
 		if strings.HasPrefix(k, fk+"@") && v.layerKeyOf(fn.Pkg, cand) == v.curLayerKey {
 			c = cand
 			break
+		}
+	}
+	if c == nil {
+		// a contract stated at a smaller, compatible layer
+		var keys []string
+		for k := range v.contracts {
+			if strings.HasPrefix(k, fk+"@") {
+				keys = append(keys, k)
+			}
+		}
+		sort.Strings(keys)
+		for _, k := range keys {
+			if v.layerCompatible(fn, v.contracts[k]) {
+				c = v.contracts[k]
+				break
+			}
 		}
 	}
 	if c == nil {
